@@ -37,7 +37,7 @@ INITIAL = {'a': {'np': 1, 'cmd': 0, 'gt': 0, 'envn': 0, 'st': 1}, 'Bee': {'np': 
 def edits(compound=False):
     out = [('noop', None)]
     for s in SLOTS:
-        out += [('toggle', s), ('np+', s), ('np-', s), ('cmd', s), ('gt', s), ('envn', s), ('st', s), ('noauto', s)]
+        out += [('toggle', s), ('np+', s), ('np-', s), ('cmd', s), ('gt', s), ('envn', s), ('st', s), ('noauto', s), ('wd', s)]
     out.append(('env', None))
     if compound:
         # two options of one section changed by the same edit of the file (one reloadconfig for both)
@@ -121,6 +121,8 @@ def render(path, cfg):
             opts['stdout_stream.filename'] = os.path.join(os.path.dirname(path), s + '.log')
         if w.get('noauto'):
             opts['autostart'] = 'False'
+        if w.get('wd'):
+            opts['working_dir'] = '/tmp'        # the line is present or absent: an option whose default is None
         if w.get('bad') == 1:
             opts['stderr_stream.class'] = 'FileStream'
             opts['stderr_stream.filename'] = os.path.join(os.path.dirname(path), 'missing-dir', s + '.err')
